@@ -913,6 +913,19 @@ func c13(run *ev.Run, tier string) {
 			run.Violate("C13/validate-rejects-override-for-registered-format", map[string]any{"key": key, "error": err.Error()})
 		}
 	}
+	// the command line tool merges the override block of the packager it guesses from
+	// the target's extension exactly as it does for a packager named with -p
+	if bin := nfpmBin(run); bin != "" {
+		cliGuessedPackager(run, bin, "C13", func(f string, named, guessed []byte) {
+			p := dec.Decode(f, guessed, false)
+			if len(p.Errs) > 0 || p.Find("/opt/guessed/only-"+f+".txt") == nil || p.Find("/etc/guessed/"+f+".conf") == nil {
+				run.Violate("C13/cli/"+f+"/override-not-merged/packager-guessed-from-target-extension", map[string]any{"decode_errors": p.Errs, "override_only_entry_present": p.Find("/opt/guessed/only-"+f+".txt") != nil})
+			}
+			if !bytes.Equal(named, guessed) {
+				run.Violate("C13/cli/"+f+"/package-differs/packager-guessed-from-target-extension", map[string]any{"len_named": len(named), "len_guessed": len(guessed)})
+			}
+		})
+	}
 	run.Assume("override map entries with an empty value and `overrides: {f: null}` are not explored (expected result debatable / parser nil-dereference outside every listed property)")
 }
 
